@@ -1,5 +1,5 @@
 """C14 — dispatch I/O delivers every byte once, in order; each operation completes once."""
-import subprocess
+import subprocess, re
 from common import run_lines
 
 META = {
@@ -37,8 +37,61 @@ def gen_lines(r, n):
         caps = [r.choice([1, 2, 3, 7, 64, 1000, 10 ** 9, 1 + r.below(100)]) for _ in range(r.below(12))]
         if total > 3000:
             caps = [c for c in caps if c >= 64]
-        out.append("I %d %d %d %d %s | %s" % (length, low, high, total, ",".join(map(str, stages)), " ".join(map(str, caps))))
+        pages = ""
+        if r.chance(1, 4):
+            # a small chunk size (DISPATCH_IOCNTL_CHUNK_PAGES) brings the "low water above the chunk size" regime - data parked in
+            # op->data across reads, buffer sized high - parked - within reach of small transfers
+            pg = r.choice([1, 1, 2]); chunk = pg * 4096; pages = " %d" % pg
+            total = r.choice([chunk * 3 + r.below(chunk), chunk * 5, 2 * chunk + 1, r.below(6 * chunk)])
+            low = r.choice([chunk + 1 + r.below(chunk), chunk * 3 // 2, 2 * chunk, chunk * 3 // 2 + 64, -1])
+            high = r.choice([low if low > 0 else chunk, (low if low > 0 else chunk) + r.below(chunk), chunk * 3 // 2, -1, 3 * chunk])
+            length = r.choice([-1, -1, total, total + 5, r.below(total + 2)])
+            stages = [total] if r.chance(1, 2) else [total // 3, total // 3, total - 2 * (total // 3)]
+            stages = [x for x in stages if x > 0] or [total]
+            caps = [c for c in caps if c >= 512]
+        out.append("I %d %d %d %d %s%s | %s" % (length, low, high, total, ",".join(map(str, stages)), pages, " ".join(map(str, caps))))
     return out
+
+
+def io_oracle(line, out):
+    """The property's own statement evaluated on what the real handler saw (independent of the model): returns a message or None."""
+    f = line.split("|")[0].split()
+    length, low, high, total = int(f[1]), int(f[2]), int(f[3]), int(f[4])
+    chunk = int(f[6]) * 4096 if len(f) > 6 else 1048576
+    lo, hi = chunk, 2 ** 64 - 1
+    if high >= 0:
+        lo = min(lo, high); hi = 1 if high == 0 else high
+    if low >= 0:
+        if hi < low: hi = 1 if low == 0 else low
+        lo = low
+    m = out.split(" calls=", 1)
+    if len(m) < 2 or not m[1]:
+        return None
+    calls = [c.split(":") for c in m[1].split("|")]
+    got = b""
+    for i, c in enumerate(calls):
+        done, size, err = int(c[0]), int(c[1]), int(c[2])
+        data = bytes.fromhex(c[3]) if c[3] != "-" else b""
+        if len(data) != size:
+            return None          # log truncated
+        if done and i != len(calls) - 1:
+            return "handler called again after done"
+        if size > hi:
+            return "a handler invocation received %d bytes, more than the high-water mark %d" % (size, hi)
+        # (at end of file / on error the residue is delivered below the mark, followed only by the final done call)
+        if not done and err == 0 and size < lo and i < len(calls) - 2 and (length < 0 or len(got) + size < length):
+            return "a non-final handler invocation received %d bytes, fewer than the low-water mark %d" % (size, lo)
+        got += data
+    if not int(calls[-1][0]):
+        return "the handler never saw done"
+    want = bytes(i % 251 for i in range(len(got)))
+    if got != want:
+        return "delivered bytes are not the bytes of the descriptor in order (first difference at offset %d)" % next(i for i in range(len(got)) if got[i] != want[i])
+    if length >= 0 and len(got) > length:
+        return "delivered %d bytes, more than the requested %d" % (len(got), length)
+    if int(calls[-1][2]) == 0 and len(got) != (min(total, length) if length >= 0 else total):
+        return "delivered %d bytes of %d available (requested %d) without reporting an error" % (len(got), total, length)
+    return None
 
 
 def run(ctx):
@@ -58,12 +111,23 @@ def run(ctx):
     ctx.cov["rule"] = ("L-fn: dispatch_io_read on pipes with random length / water marks, bytes arriving in stages from a writer thread, read() capped per call; the (requested length, "
                        "result) sequence of every read() and every handler call (done, size, error, bytes) compared with IoP.handle driven by the real outcomes. Oracle: multi-operation "
                        "channels with barriers, close, cleanup, writes under short-write injection. distinct_nontrivial = distinct scenarios that performed at least one read()")
+    judged = 0
+    for l, o in zip(lines, real):
+        msg = io_oracle(l, o)
+        judged += 1
+        if msg:
+            ctx.violation("dispatch_io_read: %s (scenario `%s`)" % (msg, l.strip()[:160]), {"line": l, "real": o[:2000]}, signature="io:read:" + re.sub(r"\d+", "N", msg)[:60])
+            break
+    ctx.count("oracle io read", judged, judged, samples=[])
     if drv is not None:
         dl = []
         for l, o in zip(lines, real):
             f = l.split("|")[0].split()
             rets = [x.split(":")[1] for x in o.split(" ")[0][6:].split(",") if x]
-            dl.append("IO %s %s %s %s" % (f[1], f[2], f[3], " ".join(rets)))
+            if len(f) > 6:
+                dl.append("IOC %d %s %s %s %s" % (int(f[6]) * 4096, f[1], f[2], f[3], " ".join(rets)))
+            else:
+                dl.append("IO %s %s %s %s" % (f[1], f[2], f[3], " ".join(rets)))
         model, _, _ = run_lines(drv, dl)
         reads = sum(len(o.split(" ")[0].split(",")) for o in real)
         eagain = sum(o.split(" ")[0].count(":-11") for o in real)
